@@ -50,14 +50,23 @@ def run(rep, tier, rng):
     dev = sfv.build_harness("dev")
     rel = sfv.build_harness("release")
     cases, labels = [], []
+    seen_fields = set()
     nmodels = 26 if tier == "thorough" else 13
     for mi in range(nmodels):
         code = F.ALL_TYPES[mi % 13]
-        model = F.gen_model(rng, code, nrecs=rng.randint(1, 2), null_prob=0.1, max_parts=2, max_pts=3, profile="finite")
+        model = F.gen_model(rng, code, nrecs=rng.randint(1, 2), null_prob=0.1, max_parts=2, max_pts=3, profile="finite",
+                            allow_degenerate=False)   # every field exists; degenerate structures: family below
         model.pop("trailing", None)
         muts, shp, shx = mutants_of(rng, model, tier)
         if tier != "thorough":
-            muts = [m for m in muts if rng.random() < 0.45]
+            # a sample, but every (field kind, value) pair seen at least once over all models
+            kept = []
+            for mu in muts:
+                key = mu[0]
+                if key not in seen_fields or rng.random() < 0.45:
+                    kept.append(mu)
+                seen_fields.add(key)
+            muts = kept
         for (label, m_shp, m_shx) in muts:
             req = -1 if rng.random() < 0.6 else code
             cases.append(C.read_case(req, m_shp, m_shx, OPS if m_shx is not None else OPS_NOIDX))
@@ -124,7 +133,7 @@ def run(rep, tier, rng):
         msg = None
         if r == [2]:
             msg = "panic while reading malformed input (%s)" % lab
-        elif r == [-2]:
+        elif r == [-2] or r == [-5]:
             msg = "harness process died (abort/stack overflow/hang) on malformed input (%s)" % lab
         else:
             has_idx = c[2] == 1
